@@ -385,6 +385,8 @@ def conv(eng: pysym.Engine, fv: FieldView, x):
         m = fv.hole._deserialize
         key = _const_key(m)
         return Call(key, _short(m), [x]), eng.raises_pred(key, _short(m), [x], [])
+    if fv.conv_kind == "ref":
+        return fv.conv_fn(x)
     raise pysym.NotInSubset(f"spec conversion for {fv.typ!r}")
 
 
@@ -481,10 +483,14 @@ def expected_ctor(eng, cls, passed, post_hook, pc_prover):
 # ---------------------------------------------------------------------------------------------
 # verification of one harvested unit
 # ---------------------------------------------------------------------------------------------
-def verify_from_dict(cls, fn_ast, namespace, point: Point, timeout_ms=10000):
+def verify_from_dict(cls, fn_ast, namespace, point: Point, timeout_ms=10000, view_factory=None, inline=None):
     """returns dict(verdicts=[...], paths=n, detail=...)"""
     eng = pysym.Engine()
     ex = pysym.Executor(eng, namespace)
+    if inline:
+        ex.inline = inline
+    spec_hyps = []
+    view0 = view_factory(eng, spec_hyps) if view_factory else None
     ex.nonraising.add(_const_key(cls))  # A2: dataclass __init__/__post_init__ do not raise
     if point.pre_hook:
         ex.nonraising.add(_const_key(cls.__pre_deserialize__))
@@ -498,7 +504,7 @@ def verify_from_dict(cls, fn_ast, namespace, point: Point, timeout_ms=10000):
     # precondition: d is JSON-like; hooks return JSON-like data
     pre = [z3.Or(*[eng.typeof(d) == eng.const(t) for t in JSONLIKE])]
     paths = ex.run(fn_ast, args, pc=pre)
-    cases, d_eff = from_spec(eng, cls, Tm(d), point.allow_not_by_alias, point.forbid_extra_keys, point.pre_hook, point.post_hook)
+    cases, d_eff = from_spec(eng, cls, Tm(d), point.allow_not_by_alias, point.forbid_extra_keys, point.pre_hook, point.post_hook, view=view0)
     if point.pre_hook:
         dt = eng.term(d_eff)
         pre.append(z3.Or(*[eng.typeof(dt) == eng.const(t) for t in JSONLIKE]))
@@ -508,9 +514,8 @@ def verify_from_dict(cls, fn_ast, namespace, point: Point, timeout_ms=10000):
     dd = eng.term(d_eff)
     extra = [z3.ForAll([k], eng.dval(dd, k) != eng.const(missing), patterns=[eng.dval(dd, k)])]
     # A3 for every opaque exception symbol is added at the call sites
-    prover = pysym.Prover(eng, timeout_ms, extra_axioms=extra + pre)
+    prover = pysym.Prover(eng, timeout_ms, extra_axioms=extra + pre + spec_hyps)
     verdicts = []
-    view = schema_view(cls)
     results = {"outcome": [], "frame": []}
     for i, p in enumerate(paths):
         goal_parts = []
@@ -528,12 +533,13 @@ def verify_from_dict(cls, fn_ast, namespace, point: Point, timeout_ms=10000):
         verdicts.append(v)
     # cover: at least one feasible returning path, and the precondition is satisfiable
     ret = [p for p in paths if p.kind == "return"]
-    cover = False
+    cover = not ret
     for p in ret:
         r, _ = prover.sat(p.pc)
-        if r == z3.sat:
+        if r != z3.unsat:  # sat, or undetermined (quantifiers): not vacuous as far as can be told
             cover = True
             break
+    cover = cover and bool(ret)
     return {
         "verdicts": verdicts,
         "paths": len(paths),
@@ -555,9 +561,11 @@ def outcome_eq(eng, cls, path, out, point, detail):
         return z3.BoolVal(False)
     if kind == "raise":
         e, s = path.value, val
+        if not getattr(point, "exc_details", True):
+            return z3.BoolVal(True)  # only "raises iff the reference raises" is claimed here
         if e.cls is None or not pysym._const_eq(e.cls.o, s.cls.o):
             return z3.BoolVal(False)
-        if s.cls.o is ValueError:
+        if s.cls.o is ValueError or not getattr(point, "exc_details", True):
             return z3.BoolVal(True)
         if len(e.args) != len(s.args) or e.kw:
             detail.append("exception arguments differ in number")
